@@ -196,6 +196,13 @@ func (p *Path) assume(c *Term) {
 }
 
 func (p *Path) addViolation(kind, id, msg string, model map[string]uint64) {
+	if kind != "assert" {
+		// identify run-time failures by the function they occur in
+		id = "?"
+		if p.lastFn != nil {
+			id = p.lastFn.String()
+		}
+	}
 	for _, v := range p.violations {
 		if v.Kind == kind && v.ID == id {
 			return
